@@ -224,7 +224,12 @@ func (s *session) commit(r *sessionRecord, trivial bool) (err error) {
 	}()
 
 	if s.manifest == nil {
-		// manifest journal writer not yet created, create one
+		// manifest journal writer not yet created, create one. The record
+		// is turned into a snapshot that lists every table of nv, so forget
+		// the tables it already lists or they would be referenced twice and
+		// never be removed once they become obsolete.
+		r.resetAddedTables()
+		r.resetDeletedTables()
 		err = s.newManifest(r, nv)
 	} else if s.manifest.Size() >= s.o.GetMaxManifestFileSize() {
 		// pass a fresh sessionRecord to avoid over-reference table file, but
